@@ -11,4 +11,9 @@ import (
 // With the autoyield overlay the httputil package has a SimHook (added by the
 // overlay, not by the repository) and a yield before every statement of
 // logmw.go, httputil.go and responsewriter.go.
-func init() { overlayHooks = func() { httputil.SimHook = kernel.HookSite } }
+func init() {
+	overlayHooks = func() {
+		httputil.SimHook = kernel.HookSite
+		httputil.SimSync = kernel.SimSync
+	}
+}
